@@ -961,7 +961,7 @@ func TestVerif_C43_ReadLoop(t *testing.T) {
 				}
 			}
 			if len(got) == 0 && exp.deliver && !allowEither {
-				t.Fatalf("%s: a never-seen message within its limit was not delivered (connection alive=%v)", desc, p.alive)
+				t.Fatalf("%s: a message within its limit that must be delivered (never seen, or under a tag that is not de-duplicated) was not delivered (connection alive=%v)", desc, p.alive)
 			}
 			if exp.mustEnd && p.alive {
 				t.Fatalf("%s: the connection stayed open", desc)
